@@ -855,13 +855,11 @@ def table_search(ctx, drv):
     sus = clean_diff.f_suspects(drv)
     if sus["error"]:
         ctx.notes.append("search: the transition table cannot be regenerated: " + sus["error"][:300])
-        return 0
+        return loop_search(ctx, drv)
     if sus["cells"]:
         ctx.notes.append(f"search: code and model differ in {len(sus['cells'])}{'+' if len(sus['cells']) >= 40 else ''} "
                          "table cell(s), e.g. " + " | ".join(sus["cells"][:4]))
         ctx.extra["table_diff_cells"] = sus["cells"]
-    if not sus["targets"] and not sus["dtargets"]:
-        return 0
     n = [0]
 
     def items():
@@ -871,9 +869,41 @@ def table_search(ctx, drv):
             n[0] += 1
             yield (t, "search-table-cells", ".f90", False)
 
+    if sus["targets"] or sus["dtargets"]:
+        with FastScratch() as d:
+            check_many(ctx, drv, Impl(str(d)), items(), chunk=2000)
+        ctx.notes.append(f"search: {n[0]} texts aimed at {len(sus['targets'])} differing line(s) / {len(sus['dtargets'])} C-pass stack(s)")
+    return n[0] + loop_search(ctx, drv)
+
+
+def loop_search(ctx, drv):
+    """texts aimed at the iterations of `fortran_file_source` that differ from the model's `fStep` (regenerated loop
+    table against driver op `floop_cells`, harness/props/clean_diff.py)"""
+    from harness.props import clean_diff
+
+    if ctx.violations:
+        return 0
+    sus = clean_diff.f_loop_suspects(drv)
+    if sus["error"]:
+        ctx.notes.append("search: the loop of fortran_file_source cannot be tabulated: " + sus["error"][:300])
+    if sus["cells"]:
+        ctx.notes.append(f"search: the loop and its model differ in {len(sus['cells'])}{'+' if len(sus['cells']) >= 40 else ''} "
+                         "iteration(s), e.g. " + " | ".join(sus["cells"][:3]))
+        ctx.extra["loop_diff_cells"] = sus["cells"]
+    if not sus["targets"]:
+        return 0
+    n = [0]
+
+    def items():
+        for t in clean_diff.f_loop_texts(sus):
+            if len(ctx.violations) >= 5:
+                return
+            n[0] += 1
+            yield (t, "search-loop-cells", ".f90", False)
+
     with FastScratch() as d:
         check_many(ctx, drv, Impl(str(d)), items(), chunk=2000)
-    ctx.notes.append(f"search: {n[0]} texts aimed at {len(sus['targets'])} differing line(s) / {len(sus['dtargets'])} C-pass stack(s)")
+    ctx.notes.append(f"search: {n[0]} texts aimed at {len(sus['targets'])} differing loop iteration(s)")
     return n[0]
 
 
